@@ -42,6 +42,8 @@ def oracle_state(cmd, line):
         m = canon_violation(part)
         if m:
             return "canon:" + m
+    if "remove_if_stateful" in cmd and " ok=0" in line:
+        return "remove_if-predicate-protocol"
     if " cache=STALE" in line:
         return "is_sorted-cache-stale"
     if cmd.startswith("can_parse") and (" agree=0" in line or " untouched=0" in line or " same=0" in line or " codes=0" in line):
@@ -707,6 +709,16 @@ def stream_percent(ctx, r):
             elif k < 0.8: parts += (gens.utf8_units(S(r.choice(["a", "\u00e9", "\u20ac", "\U0001f4a9"]))) if e == "b" else S(r.choice(["a", "\u00e9", "\u20ac"])))
             else: parts += gens.illformed_units(r, e)
         lines.append("pctdec %s" % tok_units(e, parts))
+    # escape runs longer than any internal chunk size, with characters of different UTF-8 lengths so that some
+    # character straddles every offset (192, 256, 1024, ...)
+    for rep in range(scale(ctx, 60, 600)):
+        chars = []
+        for _ in range(r.randint(2, 5)):
+            chars += [r.choice(["\u00e9", "\u65e5", "\U0001f4a9", "a", "\u07ff", "\u0800"])] * r.choice([1, 2, 3, 63, 64, 70, 85, 128, 255, 341])
+        text = "".join(chars)[: r.choice([100, 200, 400, 1100])]
+        esc = "".join("%%%02X" % b for b in text.encode("utf-8"))
+        lines.append("pctdec %s" % tok(esc, r.choice(["b", "h", "w"])))
+        lines.append("pctdec %s" % tok("x" * r.randint(0, 3) + esc + "y", "b"))
     return [Case(lines[i:i + 2000], "percent") for i in range(0, len(lines), 2000)]
 
 def stream_urlenc(ctx, r):
@@ -783,6 +795,30 @@ def stream_usp(ctx, r):
             else: lines.append("usp_safe_assign 0 1")
         lines.append("usp_sort 0")
         cases.append(Case(lines, "usp"))
+    # sort() must be stable for lists of ANY length: 17..60 pairs over few names (libstdc++'s std::sort would be stable
+    # only up to 16 elements), then the order-sensitive queries
+    for rep in range(scale(ctx, 60, 600)):
+        n = r.choice([16, 17, 18, 20, 33, r.randint(17, 60)])
+        nm = r.sample(["a", "b", "c", "aa", "\u00e9", "\uffff", "\U00010000", ""], r.randint(2, 4))
+        q = "&".join("%s=%d" % (r.choice(nm), i) for i in range(n))
+        e = r.choice(["b", "h", "w"])
+        lines = ["usp_new 0 %s" % tok(q, e), "usp_sort 0"] + ["usp_get 0 %s" % tok(x) for x in nm] + ["usp_getall 0 %s" % tok(nm[0])]
+        if r.random() < 0.5:
+            lines = ["parse 0 %s -" % tok("http://h/?" + q), "sp 0", "sp_sort 0", "get 0"]
+        cases.append(Case(lines, "usp-sort-long"))
+    # names / values of 16 bytes and more (heap strings) with an ill-formed sequence in the middle, and long wide values
+    for rep in range(scale(ctx, 150, 1500)):
+        pre = "0123456789abcdefghij"[: r.choice([9, 10, 14, 15, 16, 20])]
+        bad = r.choice(["%FF", "%C3", "%E2%82", "%ED%A0%80", "%F0%9F", "%80"])
+        tail = r.choice(["abcde", "x", "%41", "\u00e9", ""])
+        v = pre + bad + tail
+        lines = ["usp_new 0 %s" % tok(r.choice(["v=" + v, v + "=1", "a=1&" + v + "=" + v])), "usp_sort 0"]
+        long_v = "v" * r.choice([14, 15, 16, 17, 40]) + r.choice(["", "\u00e9", "\U0001f4a9"])
+        e = r.choice(["h", "w", "W", "b"])
+        lines += ["usp_append 0 %s %s" % (tok("k", e), tok(long_v, e)), "usp_has2 0 %s %s" % (tok("k", e), tok(long_v, e)),
+                  "usp_has2 0 %s %s" % (tok("k", e), tok(long_v + "x", e)), "usp_del2 0 %s %s" % (tok("k", e), tok(long_v, e))]
+        lines.append("checkfix %s" % tok_units("b", gens.utf8_units(S(pre)) + r.choice([[0xFF], [0xC3], [0xE2, 0x82], [0xF0, 0x9F, 0x92]]) + gens.utf8_units(S(tail.replace("%41", "A")))))
+        cases.append(Case(lines, "usp-long-illformed"))
     cases += selfparse_cases(ctx, r, scale(ctx, 60, 600))
     # probes with ill-formed UTF-8 given as char input (known finding F2 when they deviate)
     for bad in [[0xFF], [0x61, 0xC3], [0xE2, 0x82], [0xED, 0xA0, 0x80], [0xC0, 0xAF], [0x80]]:
@@ -1354,7 +1390,21 @@ def oracle_aliasparse(cmd, line):
         return "parse-of-own-view-differs-from-parse-of-a-copy"
     return oracle_state(cmd, line)
 
+def stream_usp_pred(ctx, r):
+    """remove_if with a predicate that has state shared by reference ("remove at most n", "remove every second pair"):
+    the predicate must be asked exactly once per pair, in list order, and the count returned must be the number removed
+    (checked inside the driver against the Standard's 'remove all items that match a condition'; no model involved)"""
+    cases = []
+    for rep in range(scale(ctx, 150, 1500)):
+        q = "&".join("%s=%d" % (r.choice("abc"), i) for i in range(r.randint(0, 9)))
+        lines = ["usp_new 0 %s" % tok(q), "usp_remove_if_stateful 0 %d %d" % (r.choice([0, 1]), r.randint(0, 5))]
+        if r.random() < 0.5:
+            lines = ["parse 0 %s -" % tok("http://h/?" + q), "sp 0", "sp_remove_if_stateful 0 %d %d" % (r.choice([0, 1]), r.randint(0, 5)), "get 0"]
+        cases.append(Case(lines, "usp-remove-if"))
+    return cases
+
 STREAMS = {
+    "usp_pred": (stream_usp_pred, oracle_state),
     "aliasparse": (stream_aliasparse, oracle_aliasparse),
     "cpset": (stream_cpset, oracle_cpset),
     "serops": (stream_serops, oracle_state),
@@ -1387,8 +1437,8 @@ def run(ctx, P):
         r = random.Random(ctx.seed * 1000003 + hash(name) % 1000)
         r = random.Random("%d/%s" % (ctx.seed, name))
         cases = build(ctx, r)
-        for cfg, variant in [(c, v) for c in (["cpp17"] if name == "cpset" else P.get("configs", ["pinned"])) for v in (["spec"] if name in ("serops", "buffer", "cpset") else P.get("model_variants", ["spec"]))]:
-            out = corr.compare_stream(ctx, name, cases, cfg, oracle, known, variant=variant, timeout=(40 if name == "cpset" else 900))
+        for cfg, variant in [(c, v) for c in (["cpp17"] if name == "cpset" else P.get("configs", ["pinned"])) for v in (["spec"] if name in ("serops", "buffer", "cpset", "usp_pred") else P.get("model_variants", ["spec"]))]:
+            out = corr.compare_stream(ctx, name, cases, cfg, oracle, known, variant=variant, timeout=(40 if name == "cpset" else 900), impl_only=(name == "usp_pred"))
             res["violations"] += out["violations"]
             for k in out["known"]:
                 if k not in res["known"]:
